@@ -6,7 +6,10 @@ from pyvc.runner import _worker
 mod, unit = sys.argv[1], sys.argv[2]
 repo = sys.argv[3] if len(sys.argv) > 3 else "/repo"
 os.environ.setdefault("VERIF_Z3_TIMEOUT_MS", "15000")
-r = _worker(("props." + mod, unit, {}, "quick", repo, False))
+import importlib
+m_ = importlib.import_module("props." + mod)
+opts = {"active": list(m_.HOUDINI["names"])} if hasattr(m_, "HOUDINI") else {}
+r = _worker(("props." + mod, unit, opts, "quick", repo, False))
 if r["error"]:
     print("ERROR", r["error"]); sys.exit(3)
 c = collections.OrderedDict()
